@@ -1,5 +1,6 @@
+from xeng import progs, progs2, progs3
 from . import _common
 
 
 def run(out):
-    _common.run(out, 'C09', s_props=['C09'])
+    _common.run(out, 'C09', x=[], s_props=['C09'])
